@@ -9,7 +9,7 @@ from sa.resolve import walk_function
 TECHNIQUE = "static analysis (ast): value-id comparison of the tabular environment's data path and parent configuration with a reference implementation (same normaliser, pandas in-place calls as redefinitions), polynomial check of quote-from-price, CFG / typestate rules for the observation queue"
 EXPLANATION = (
     "Decides necessary structural clauses of C18, far from sufficient for the contents served: (S1) Transmitter.add_prices emits, for every price of every column with only the "
-    "missing ones (NaN) dropped, a quote with ask - bid = price x spread and (ask + bid) / 2 = price, stamped with the row's time and the column's contract; _make_transmitter adds "
+    "missing ones (NaN) dropped, a quote with ask - bid = price x spread and (ask + bid) / 2 = price, stamped with the row's time and the column's contract, and never stores into / edits in place the table it was given (labels, times, cells); _make_transmitter adds "
     "each price column with the configured spread and the rate frame with none; (S2) the table published as self.X is, by value id, the very table handed to the transmitter "
     "(likewise Y; pandas in-place calls count as redefinitions); observation events are built from every row of X; (S3) _make_timesteps derives the steps from Y's index on the "
     "common valid range, minus the exchange calendar's holidays, skipping the first `window` dates; (S4) State declares shape (window or ceil(window/stride), n), keeps a "
